@@ -1,16 +1,13 @@
-(* Wire layer of unit C19_motor (Servo + DCMotor host models).
+(* Wire layer of unit C19_motor (host model of Reduino.Actuators.DCMotor).
 
    A pynum is  (0 z) int | (1 (num den)) float | (2 b) bool | (3) non-number (None).
    A rational q is (num den), sent in lowest terms.
 
-   CASE    (cls ctor_args (op1 op2 ...))
-     cls 0 = Servo    ctor_args = (pin mina maxa minp maxp), each  ()  = argument omitted
-                                                                 | (v) = pynum v
-              ops:  (0 v) write v | (1 v) write_us v | (2) read | (3) read_us
-     cls 1 = DCMotor  ctor_args = (in1 in2 enable), each a pynum
-              ops:  (0 v) set_speed v | (1) backward() | (1 v) backward(v) | (2) stop
-                    (3) coast | (4) invert | (5 t d) ramp(t, d) | (6 d v) run_for(d, v)
-                    (7) get_speed | (8) get_applied_speed | (9) is_inverted | (10) get_mode
+   CASE    (1 ctor_args (op1 op2 ...))
+     ctor_args = (in1 in2 enable), each a pynum
+     ops:  (0 v) set_speed v | (1) backward() | (1 v) backward(v) | (2) stop
+           (3) coast | (4) invert | (5 t d) ramp(t, d) | (6 d v) run_for(d, v)
+           (7) get_speed | (8) get_applied_speed | (9) is_inverted | (10) get_mode
 
    OUTPUT  (ctor_result step1 step2 ...)
      ctor_result = (0 snapshot)  the object was built
@@ -20,15 +17,13 @@
      kind  = 0 ValueError | 1 TypeError
      ret   = (0) None | (1 q) float | (2 b) bool | (3 m) mode
      mode  = 0 coast | 1 drive | 2 brake
-     Servo   snapshot = (pin min_angle max_angle min_pulse max_pulse angle pulse)   pin a pynum
-             events   = ((0 angle pulse) ...)                     one per completed write/write_us
-     DCMotor snapshot = ((in1 in2 enable) speed inverted mode applied ghost)
-                        ghost = 0 last successful command was not stop/run_for | 1 it was
-             events   = (0 speed applied mode)  one per completed _apply_speed/stop/coast
-                      | (1 q)                   one per call of the package-level sleep
+     snapshot = ((in1 in2 enable) speed inverted mode applied ghost)
+                ghost = 0 last successful command was not stop/run_for | 1 it was
+     events   = (0 speed applied mode)  one per completed _apply_speed/stop/coast
+              | (1 q)                   one per call of the package-level sleep
    An undecodable case answers (2). *)
 From Coq Require Import ZArith QArith List Bool.
-From RV Require Import Base.Wire Base.NumM Host.Servo Host.DCMotor.
+From RV Require Import Base.Wire Base.NumM Host.DCMotor.
 Import ListNotations.
 Open Scope Z_scope.
 
@@ -36,63 +31,6 @@ Definition wqr (q : Q) : wv := wq (Qred q).
 
 Definition wmode (m : mode) : wv :=
   WI (match m with Coast => 0 | Drive => 1 | Brake => 2 end).
-
-(* ---------------- Servo ---------------- *)
-Definition un_sop (v : wv) : option sop :=
-  match v with
-  | WL [WI 0; x] => match un_pynum x with Some p => Some (SWrite p) | None => None end
-  | WL [WI 1; x] => match un_pynum x with Some p => Some (SWriteUs p) | None => None end
-  | WL [WI 2] => Some SRead
-  | WL [WI 3] => Some SReadUs
-  | _ => None
-  end.
-
-Definition wservo (s : servo) : wv :=
-  WL [wpynum (sv_pin s); wqr (min_a s); wqr (max_a s); wqr (min_p s); wqr (max_p s);
-      wqr (cur_a s); wqr (cur_p s)].
-
-Definition wsev (e : sev) : wv :=
-  match e with SLvl a p => WL [WI 0; wqr a; wqr p] end.
-
-Definition wsret (r : sret) : wv :=
-  match r with SNone => WL [WI 0] | SFloat q => WL [WI 1; wqr q] end.
-
-Fixpoint servo_steps (s : servo) (ops : list wv) : option (list wv) :=
-  match ops with
-  | [] => Some []
-  | o :: r =>
-      match un_sop o with
-      | None => None
-      | Some op =>
-          let '(s', evs, res) := sstep s op in
-          let head := match res with
-                      | Ok ret => WL [WI 0; wsret ret; wservo s'; WL (map wsev evs)]
-                      | Raised k => WL [WI 1; wexn k; wservo s'; WL (map wsev evs)]
-                      end in
-          match servo_steps s' r with
-          | Some tl => Some (head :: tl)
-          | None => None
-          end
-      end
-  end.
-
-Definition run_servo (args : wv) (ops : list wv) : wv :=
-  match args with
-  | WL [p; a1; a2; p1; p2] =>
-      match un_opt_pynum p, un_opt_pynum a1, un_opt_pynum a2, un_opt_pynum p1, un_opt_pynum p2 with
-      | Some p', Some a1', Some a2', Some p1', Some p2' =>
-          match servo_ctor (mkServoArgs p' a1' a2' p1' p2') with
-          | inr k => WL [WL [WI 1; wexn k]]
-          | inl s =>
-              match servo_steps s ops with
-              | Some l => WL (WL [WI 0; wservo s] :: l)
-              | None => wbad
-              end
-          end
-      | _, _, _, _, _ => wbad
-      end
-  | _ => wbad
-  end.
 
 (* ---------------- DCMotor ---------------- *)
 Definition un_mop (v : wv) : option mop :=
@@ -172,7 +110,6 @@ Definition run_motor (args : wv) (ops : list wv) : wv :=
 
 Definition run (v : wv) : wv :=
   match v with
-  | WL [WI 0; args; WL ops] => run_servo args ops
   | WL [WI 1; args; WL ops] => run_motor args ops
   | _ => wbad
   end.
